@@ -12,6 +12,7 @@ import json
 import os
 import re
 import subprocess
+from pathlib import Path
 
 from gverif.common import PY, child_env, die
 
@@ -51,6 +52,19 @@ def catches_cyclic() -> bool:
                 CATCH_NOTES.append(f"probe of a cyclic re-export raised {type(exc).__name__} (not CyclicAliasError); the model assumes the cycle escapes")
             return False
     return True
+
+
+def base_rule() -> str:
+    """Probe (public API) of the base-class test: does replacing one base by another count as a removal?
+    "missing" when `class K(int)` -> `class K(str)` is reported CLASS_REMOVED_BASE, else "shorter"."""
+    import griffe  # noqa: PLC0415
+
+    try:
+        mods = [griffe.visit("m", filepath=Path("m.py"), code=f"class K({b}):\n    pass\n") for b in ("int", "str")]
+        kinds = {b.kind.name for b in griffe.find_breaking_changes(*mods)}
+    except Exception as exc:  # noqa: BLE001
+        die(f"C11: probing the base-class rule failed ({exc!r})")
+    return "missing" if "CLASS_REMOVED_BASE" in kinds else "shorter"
 
 
 # ---- concretisation -----------------------------------------------------------------------------------------
